@@ -8,12 +8,12 @@ int build_chain_mixed(rng_t *r,chaindesc_t *d,unsigned modelmask,int maxpk,int m
       sp_setup *S=NULL; for(int t=0;t<80;t++){ S=sp_gen_setup(r,(int)rng_below(r,SP_NPROFILES),1); if(S->channels<=maxch && ((long)S->channels<<S->bs1exp)<=(1L<<15)) break; sp_free_setup(S); S=NULL; }
       if(!S) return -9999;
       pktlist_t pk; pktlist_init(&pk); int np=(int)rng_range(r,2,maxpk); sp_gen_stream(r,S,np,&pk,(int)rng_below(r,2));
-      mux_stream(&pk,d->serial[i],d->policy[i],d->fill[i],d->muxseed+i,out); pktlist_free(&pk);
+      vh_mux_link(&pk,d,i,out); pktlist_free(&pk);
       if(desc && dl+60<dn) dl+=snprintf(desc+dl,dn-dl," {link %d model ch%d bs%d/%d %dpk}",i,S->channels,1<<S->bs0exp,1<<S->bs1exp,np);
       d->cfg[i].nsamples=-1; d->cfg[i].channels=S->channels; d->cfg[i].rate=(long)S->rate; sp_free_setup(S);
     } else {
       encres_t er; int ret=enc_run(&d->cfg[i],&er); if(ret){ encres_free(&er); return ret; }
-      mux_stream(&er.pk,d->serial[i],d->policy[i],d->fill[i],d->muxseed+i,out); encres_free(&er);
+      vh_mux_link(&er.pk,d,i,out); encres_free(&er);
     }
   }
   if(link_off) link_off[d->nlinks]=out->n;
